@@ -44,6 +44,7 @@ fn main() {
         "C01" => props::c01::run(&report, &tier),
         "C02" => props::c02::run(&report, &tier),
         "C03" => props::c03::run_c03(&report, &tier),
+        "C04" => props::c04::run(&report, &tier),
         "C05" => props::c03::run_c05(&report, &tier),
         "C07" => props::c07::run(&report, &tier),
         "C11" => props::c11::run(&report, &tier),
